@@ -489,12 +489,15 @@ def p10_row_identifier_correspondence(prog):
                 used_locs.append(loc)
                 # ... and exactly one identifier is pushed for it, naming that slot's index, in the same order
                 later = [q for q in pushed if q['i'] > e['i'] and (n_ + 1 >= len(acts) or q['i'] < acts[n_ + 1]['i'])]
-                if p.ended == 'return' and len(later) != 1:
-                    bad = bad or 'the reuse loop must push exactly one identifier per reused slot (found %d)' % len(later)
-                for q in later:
-                    slot_idx = [t[2][1] for t in pathsem.subterms(e['args'][0]) if t[0] == 'call' and t[1].rsplit('::', 1)[-1] in ('get_unchecked_mut', 'index_mut', 'get_mut') and len(t[2]) == 2]
-                    if not slot_idx or not pathsem.mentions(q['vals'][1], lambda t: t == S(slot_idx[0])):
-                        bad = bad or 'the identifier pushed for a reused slot does not carry that slot\'s index'
+                slot_idx = [t[2][1] for t in pathsem.subterms(e['args'][0]) if t[0] == 'call' and t[1].rsplit('::', 1)[-1] in ('get_unchecked_mut', 'index_mut', 'get_mut') and len(t[2]) == 2]
+                mine = [q for q in later if slot_idx and pathsem.mentions(q['vals'][1], lambda t: t == S(slot_idx[0]))]
+                # pushes after the last activation may also belong to the fresh part (identifiers with the constant
+                # generation 0): they are judged there
+                others = [q for q in later if q not in mine and not pathsem.mentions(q['vals'][1], lambda t: t == ('c', 0))]
+                if p.ended == 'return' and len(mine) != 1:
+                    bad = bad or 'the reuse loop must push exactly one identifier per reused slot, carrying that slot\'s index (found %d)' % len(mine)
+                if others:
+                    bad = bad or 'the identifier pushed for a reused slot does not carry that slot\'s index'
         if bad or E0.truncated:
             r.viol('P10', 'allocate_batch/loop-shape', f.loc(), 'the reuse loop must pair the k-th location with the k-th identifier: %s' % (bad or 'not analysable'))
         # fresh part: Identifier::new(slots_len + i, 0) for i in 0..remaining, in iteration order
@@ -502,29 +505,54 @@ def p10_row_identifier_correspondence(prog):
         slots_i = adt_field_index(prog, 'entity::allocator::Allocator', 'slots')
         bad = None
         nret = 0
+        nnew = 0
         for p in E.paths:
             if p.ended != 'return':
                 continue
             nret += 1
-            news = [e for e in p.calls(lambda e: e['name'] == 'new' and 'entity::identifier::Identifier' in e['path'])
-                    if pathsem.mentions(e['args'][0], lambda t: t[0] == 'elem' and pathsem.mentions(t, lambda u: u[0] == 'agg' and u[1].startswith('core::ops::Range')))]
+            def is_range(u):
+                return isinstance(u, tuple) and u and u[0] == 'agg' and isinstance(u[1], str) and u[1].startswith('core::ops::Range')
+            # fresh identifiers: generation is the constant 0
+            news = [e for e in p.calls(lambda e: e['name'] == 'new' and 'entity::identifier::Identifier' in e['path']) if len(e['args']) > 1 and e['args'][1] == ('c', 0)]
             ext = [e for e in p.calls(lambda e: e.get('consumer') and pathsem.tstr(e['args'][0]).endswith('self.%d' % slots_i))]
-            nexts = [e for e in p.calls(lambda e: e['path'] == 'core::iter::Iterator::next')]
-            if len(news) != 1 or len(ext) != 1:
-                bad = 'expected one Identifier::new over an index range and one extension of self.slots per path (found %d, %d)' % (len(news), len(ext))
+            nexts = [e for e in p.calls(lambda e: e['path'] == 'core::iter::Iterator::next' and not any(pathsem.mentions(a_, is_range) for a_ in list(e['args']) + list(e['vals'])))]
+            if len(ext) != 1:
+                bad = 'expected one extension of self.slots per path (found %d)' % len(ext)
                 break
-            n, x = news[0], ext[0]
-            if n['args'][1] != ('c', 0):
-                bad = 'fresh identifiers must have generation 0'
+            x = ext[0]
+            rngs = set()
+            for a_, v_ in p.conds:
+                if isinstance(a_, tuple) and a_[0] in ('next', 'nonempty', 'consumed', 'exhausted'):
+                    rngs |= {u for u in pathsem.subterms(a_) if is_range(u)}
+            for e in news:
+                rngs |= {u for u in pathsem.subterms(e['args'][0]) if is_range(u)}
+            if not news:
+                continue            # the fresh loop ran zero times on this path
+            nnew += len(news)
+            if len(rngs) != 1:
+                bad = 'fresh identifiers are not produced over one index range (found %d ranges)' % len(rngs)
                 break
-            L = pathsem.lin(n['args'][0])
-            elems = [t for t in L.terms if isinstance(t, tuple) and t[0] == 'elem']
-            if len(elems) != 1 or L.terms[elems[0]] != 1:
-                bad = 'index of a fresh identifier is not (start + i)'
-                break
-            rng = [u for u in pathsem.subterms(elems[0]) if u[0] == 'agg' and u[1].startswith('core::ops::Range')][0]
+            rng = next(iter(rngs))
             lo, hi = pathsem.lin(rng[4][0]), pathsem.lin(rng[4][1])
-            start = (L - Lin.atom(elems[0])) + lo
+            start = None
+            for j, n in enumerate(news):
+                L = pathsem.lin(n['args'][0])
+                elems = [t for t in L.terms if isinstance(t, tuple) and t[0] == 'elem']
+                if elems:
+                    if len(elems) != 1 or L.terms[elems[0]] != 1 or len(news) != 1:
+                        bad = 'index of a fresh identifier is not (start + i)'
+                        break
+                    st_j = (L - Lin.atom(elems[0])) + lo
+                else:
+                    # the loop over the range was walked concretely: the j-th fresh identifier is start + lo + j
+                    st_j = L - Lin.k(j)
+                if start is None:
+                    start = st_j
+                elif str(start) != str(st_j):
+                    bad = 'fresh identifiers are not numbered consecutively (the %d-th is %s)' % (j, L)
+                    break
+            if bad:
+                break
             count = hi - lo
 
             def is_len_of_slots(t):
@@ -543,6 +571,8 @@ def p10_row_identifier_correspondence(prog):
             if not (ok_a or ok_b):
                 bad = 'the number of fresh identifiers (%s) is not the number of locations left after slot reuse' % count
                 break
+        if not bad and not nnew:
+            bad = 'no path produces identifiers for fresh slots'
         if bad or not nret or E.truncated:
             r.viol('P10', 'allocate_batch/fresh-numbering', f.loc(), 'identifiers of fresh slots must be (slots_len + i, generation 0) in iteration order: %s' % (bad or 'no analysable path'))
     # ---- Locations::next
